@@ -289,6 +289,46 @@ func Check(re *regexp2.Regexp, s string, ns []int) (Stats, error) {
 	if err == nil && norm(wrapped) != sb.String() {
 		return st, fmt.Errorf("Replace(\\x01$&\\x02) = %q, fold of the match sequence %q", wrapped, sb.String())
 	}
+	// a template naming every group, issued right after a bool-only call on the same Regexp
+	// (the bool-only entry points may run a program without captures; Replace must not inherit it)
+	if len(cr.Nums) > 0 || len(seq) > 0 {
+		var nums []int
+		if len(seq) > 0 {
+			nums = seq[0].Nums
+		}
+		var tpl strings.Builder
+		tpl.WriteString("\x01")
+		for _, gn := range nums {
+			fmt.Fprintf(&tpl, "${%d}\x03", gn)
+		}
+		tpl.WriteString("\x02")
+		if _, err := re.MatchString(s); err == nil {
+			gotG, err := re.Replace(s, tpl.String(), -1, -1)
+			if err == nil {
+				var wb strings.Builder
+				prev = 0
+				for _, m := range asc {
+					wb.WriteString(string(r[prev:m.I]))
+					wb.WriteString("\x01")
+					for gi := range m.Nums {
+						if g := m.Groups[gi]; len(g) > 0 {
+							c := g[len(g)-1]
+							wb.WriteString(string(r[c.I : c.I+c.L]))
+						}
+						wb.WriteString("\x03")
+					}
+					wb.WriteString("\x02")
+					prev = m.I + m.L
+				}
+				wb.WriteString(string(r[prev:]))
+				if norm(gotG) != wb.String() {
+					return st, fmt.Errorf("MatchString then Replace(%q) = %q, fold of the match sequence with every group's last capture %q", tpl.String(), gotG, wb.String())
+				}
+			} else if errc(err) != "timeout" {
+				return st, fmt.Errorf("Replace(%q): %v", tpl.String(), err)
+			}
+		}
+	}
 	parts, err := re.Split(s, -1)
 	if err != nil && errc(err) != "timeout" {
 		return st, fmt.Errorf("Split: %v", err)
